@@ -68,3 +68,84 @@ Example C05_example_stateful :
   = Some (assemble (bs "a") (bs "g1")
            (bs "var N_g1_T_x int" ++ nl ++ bs "func helper_g1() {}" ++ nl ++ bs "var N_g1_T2_xx int" ++ nl)).
 Proof. exact stateful_generator_fresh_per_package. Qed.
+
+(* ================================================================================================================
+   The REAL generators as instances of the abstract generator (Model/Generators.v): deepcopy keeps g.processed,
+   runtimedoc keeps g.processed and g.helperWritten between the GenerateType calls of one package.  The theorems above
+   hold of them as of every state machine; with the agreement theorems of Proofs/GeneratorsPipe.v (Pipeline.gen_run on
+   the instance = the generator model's own run of ONE package from its INITIAL state) they read: whatever else is
+   generated in the same process, the file of a processed package is the formatter's output for what the generator
+   model renders for that package alone — the processed set and the helper flag never carry over between packages.
+   The text of the templates is a parameter ([print_method], [print_item], [print_gtype]: checked per run by the
+   harnesses of C17 / C16 / C18); what is covered is the IR-level content and its dependence on state.
+   ================================================================================================================ *)
+Require Gengo.Model.Generators Gengo.Proofs.GeneratorsPipe.
+Module GN := Gengo.Model.Generators.
+Module GP := Gengo.Proofs.GeneratorsPipe.
+
+Theorem C05_deepcopy_fresh_per_package :
+  forall (E : env) fx graph vis print_method fuel a w gens s p,
+    order_ok E -> NoDup (map g_name gens) -> world_ok w ->
+    exec_outcome E a w gens s = Done ->
+    In p (w_pkgs w) -> processed E a w s p = true -> In (GN.deepcopy_gen fx graph vis print_method fuel) gens ->
+    (* the dispatch calls the generator for declared types on which IsGeneratorEnabled says yes (one Go function) *)
+    (forall t, In t (GP.called fx graph vis print_method fuel E p) ->
+       exists d, GN.DC.lookup (graph p) (ty_name t) = Some d /\ GN.DC.enabled (graph p) d = true) ->
+    exists ms,
+      GN.DC.gen_deepcopy fuel fx (graph p) (map ty_name (GP.called fx graph vis print_method fuel E p)) (vis p) = Ok ms /\
+      fs_lookup (gen_file a p (bs "deepcopy")) (exec_fs E a w gens s) =
+        (if negb (is_nil (GN.print_methods print_method ms))
+         then e_fmt E (assemble (pk_name p) (bs "deepcopy") (GN.print_methods print_method ms))
+         else if mem_bytes (fname a (bs "deepcopy")) (pk_files p) then None
+         else fs_lookup (gen_file a p (bs "deepcopy")) s).
+Proof. exact GP.deepcopy_fresh_per_package. Qed.
+Print Assumptions C05_deepcopy_fresh_per_package.
+
+Theorem C05_runtimedoc_fresh_per_package :
+  forall (E : env) fd fs desc print_item fuel a w gens s p,
+    order_ok E -> NoDup (map g_name gens) -> world_ok w ->
+    exec_outcome E a w gens s = Done ->
+    In p (w_pkgs w) -> processed E a w s p = true -> In (GN.runtimedoc_gen fd fs desc print_item fuel) gens ->
+    (forall t, In t (pk_types p) ->
+       should_call E (GN.runtimedoc_gen fd fs desc print_item fuel) p t = GN.RD.t_enabled (desc p t)) ->
+    List.length (pk_types p) <= fuel ->
+    let body := GN.print_items print_item (GN.RD.gen fd fs (GN.rd_view desc p)) in
+    fs_lookup (gen_file a p (bs "runtimedoc")) (exec_fs E a w gens s) =
+      (if negb (is_nil body) then e_fmt E (assemble (pk_name p) (bs "runtimedoc") body)
+       else if mem_bytes (fname a (bs "runtimedoc")) (pk_files p) then None
+       else fs_lookup (gen_file a p (bs "runtimedoc")) s).
+Proof. exact GP.runtimedoc_fresh_per_package. Qed.
+Print Assumptions C05_runtimedoc_fresh_per_package.
+
+Theorem C05_partialstruct_file_per_package :
+  forall (E : env) cfg tracker tin print_gtype a w gens s p,
+    order_ok E -> NoDup (map g_name gens) -> world_ok w ->
+    exec_outcome E a w gens s = Done ->
+    In p (w_pkgs w) -> processed E a w s p = true -> In (GN.partialstruct_gen cfg tracker tin print_gtype) gens ->
+    let model := GN.PS.generate_pkg (tracker p) (pk_path p) cfg
+                   (map (tin p) (GP.ps_called cfg tracker tin print_gtype E p)) [] [] in
+    model <> GN.PS.OutGeneric ->
+    exists ts i,
+      model = GN.PS.OutFile ts i /\
+      fs_lookup (gen_file a p (bs "partialstruct")) (exec_fs E a w gens s) =
+        (if negb (is_nil (GN.print_gtypes print_gtype ts))
+         then e_fmt E (assemble (pk_name p) (bs "partialstruct") (GN.print_gtypes print_gtype ts))
+         else if mem_bytes (fname a (bs "partialstruct")) (pk_files p) then None
+         else fs_lookup (gen_file a p (bs "partialstruct")) s).
+Proof. exact GP.partialstruct_file_per_package. Qed.
+Print Assumptions C05_partialstruct_file_per_package.
+
+(* non-vacuity: two packages with the same declarations (Dep untagged, Root{D Dep} tagged) in one All run of the
+   deepcopy instance: the package processed second gets Dep's methods too *)
+Example C05_example_deepcopy_instance :
+  exec_outcome (wit_env true) wc_args GP.wg_world [GP.wg_gen] wc_fs = Done /\
+  map ty_name (GP.called GN.DC.all_fixed (fun _ => Gengo.Proofs.DeepCopyTop.w_dep) (fun _ => []) GP.wg_print 8 (wit_env true) GP.wg_a)
+    = [bs "Root"] /\
+  GN.DC.gen_deepcopy 8 GN.DC.all_fixed Gengo.Proofs.DeepCopyTop.w_dep [bs "Root"] [] =
+    Ok [GN.DC.MPtrCopy (bs "Root") []; GN.DC.MPtrInto (bs "Root") [] [GN.DC.SCallInto (bs "D")];
+        GN.DC.MPtrCopy (bs "Dep") []; GN.DC.MPtrInto (bs "Dep") [] [GN.DC.SCopySlice (bs "X") (bs "[]int")]] /\
+  fs_lookup (bs "a", bs "zz_generated.deepcopy.go") (exec_fs (wit_env true) wc_args GP.wg_world [GP.wg_gen] wc_fs)
+    = Some (assemble (bs "a") (bs "deepcopy") GP.wg_body) /\
+  fs_lookup (bs "b", bs "zz_generated.deepcopy.go") (exec_fs (wit_env true) wc_args GP.wg_world [GP.wg_gen] wc_fs)
+    = Some (assemble (bs "b") (bs "deepcopy") GP.wg_body).
+Proof. exact GP.deepcopy_instance_witness. Qed.
